@@ -31,9 +31,14 @@ type fsItem struct {
 	At   int    // byte offset (…-byte modes) or ordinal of the syscall on the main thread
 	Sys  string // syscall name (…-sys modes)
 	Seq  int    // position in the storage sequence of the record run (…-sys modes)
+	Sys2 string // pause-fail: the later syscall of writer A that fails; pause-bkill: the syscall at which writer B is killed
+	At2  int
 }
 
 func (it fsItem) String() string {
+	if it.Sys2 != "" {
+		return fmt.Sprintf("%s size=%d %s#%d(seq %d) then %s#%d", it.Mode, it.Size, it.Sys, it.At, it.Seq, it.Sys2, it.At2)
+	}
 	if it.Sys != "" {
 		return fmt.Sprintf("%s size=%d %s#%d(seq %d)", it.Mode, it.Size, it.Sys, it.At, it.Seq)
 	}
@@ -269,7 +274,7 @@ func (e *fsEnv) runItem(it fsItem, writeOrd int) (*fsOutcome, error) {
 		cmd = e.childCmd("strace", "-f", "-o", "/dev/null", "-e", "trace="+it.Sys,
 			"-e", fmt.Sprintf("inject=%s:when=%d:error=EIO", it.Sys, it.At),
 			e.child, "storeretryload", dir, "node", pf)
-	case "pause-sys":
+	case "pause-sys", "pause-fail", "pause-bkill":
 		return e.runPauseItem(it, dir, pf)
 	case "ctx-cancelled":
 		cmd = e.childCmd(e.child, "storecancelled", dir, "node", pf)
@@ -366,9 +371,15 @@ func (e *fsEnv) runItem(it fsItem, writeOrd int) (*fsOutcome, error) {
 // same name at syscall granularity.
 func (e *fsEnv) runPauseItem(it fsItem, dir, pf string) (*fsOutcome, error) {
 	const delayUS = 900000
-	a := exec.Command("strace", "-f", "-o", "/dev/null", "-e", "trace="+it.Sys,
-		"-e", fmt.Sprintf("inject=%s:when=%d:delay_enter=%d", it.Sys, it.At, delayUS),
-		e.child, "store", dir, "node", pf)
+	aargs := []string{"-f", "-o", "/dev/null", "-e", "trace=" + it.Sys,
+		"-e", fmt.Sprintf("inject=%s:when=%d:delay_enter=%d", it.Sys, it.At, delayUS)}
+	if it.Mode == "pause-fail" {
+		// after the pause (during which writer B completes) a later syscall of writer A fails
+		aargs = []string{"-f", "-o", "/dev/null", "-e", "trace=" + it.Sys + "," + it.Sys2,
+			"-e", fmt.Sprintf("inject=%s:when=%d:delay_enter=%d", it.Sys, it.At, delayUS),
+			"-e", fmt.Sprintf("inject=%s:when=%d:error=EIO", it.Sys2, it.At2)}
+	}
+	a := exec.Command("strace", append(aargs, e.child, "store", dir, "node", pf)...)
 	var aout bytes.Buffer
 	a.Stdout, a.Stderr = &aout, &aout
 	if err := a.Start(); err != nil {
@@ -376,10 +387,17 @@ func (e *fsEnv) runPauseItem(it fsItem, dir, pf string) (*fsOutcome, error) {
 	}
 	time.Sleep(350 * time.Millisecond)
 	t0 := time.Now()
-	bout, berr := exec.Command(e.child, "storeload", dir, "node", pf).CombinedOutput()
+	bcmd := exec.Command(e.child, "storeload", dir, "node", pf)
+	if it.Mode == "pause-bkill" {
+		// writer B starts while A is held and dies at one of its own storage syscalls
+		bcmd = exec.Command("strace", "-f", "-o", "/dev/null", "-e", "trace="+it.Sys2,
+			"-e", fmt.Sprintf("inject=%s:when=%d:signal=KILL", it.Sys2, it.At2),
+			e.child, "storeload", dir, "node", pf)
+	}
+	bout, berr := bcmd.CombinedOutput()
 	bTook := time.Since(t0)
 	aerr := a.Wait()
-	if berr != nil {
+	if berr != nil && it.Mode != "pause-bkill" {
 		return nil, fmt.Errorf("writer B: %v %s", berr, bout)
 	}
 	o := &fsOutcome{}
@@ -417,7 +435,10 @@ func (e *fsEnv) runPauseItem(it fsItem, dir, pf string) (*fsOutcome, error) {
 			load2 = strings.TrimPrefix(l, "LOAD2 ")
 		}
 	}
-	where := "pause-sys/" + it.Sys
+	where := it.Mode + "/" + it.Sys
+	if it.Sys2 != "" {
+		where += "+" + it.Sys2
+	}
 	overlapped := bTook < time.Duration(delayUS-400000)*time.Microsecond
 	_ = overlapped
 	switch {
@@ -433,6 +454,9 @@ func (e *fsEnv) runPauseItem(it fsItem, dir, pf string) (*fsOutcome, error) {
 	case o.storeOut == "STORE ok" && !strings.HasPrefix(load1, "complete"):
 		o.sig = "C17/acked-write-incomplete/" + where
 		o.detail = fmt.Sprintf("%s: writer A's Store reported success but afterwards Load says %q", it, load1)
+	case strings.HasPrefix(storeB, "ok") && !strings.HasPrefix(load1, "complete"):
+		o.sig = "C17/acked-write-lost-to-another-writer/" + where
+		o.detail = fmt.Sprintf("%s: writer B's Store of the node reported success (and read it back: %q) while writer A was held; after A finished (%s) Load says %q", it, loadB, o.storeOut, load1)
 	case !strings.HasPrefix(store2, "ok"):
 		o.sig = "C17/re-store-fails/" + where
 		o.detail = fmt.Sprintf("%s: re-storing failed: %s", it, store2)
@@ -525,6 +549,22 @@ func (e *fsEnv) fsEnumerate(tier string, seed uint64) ([]fsItem, map[int]int, ma
 			if sz == 60 || (tier == "thorough" && sz > 4000) {
 				items = append(items, fsItem{Size: sz, Mode: "pause-sys", Sys: ev.name, At: ev.ord, Seq: i})
 			}
+			if sz == 60 || (tier == "thorough" && sz == 4097) {
+				// two writers, one of them unlucky: A held at this syscall while B completes, then one
+				// of A's last syscalls fails; or B, started while A is held, dies at one of its last ones
+				for j := len(evs) - 3; j < len(evs); j++ {
+					if j <= i || j < 0 || evs[j].name == ev.name {
+						continue
+					}
+					items = append(items, fsItem{Size: sz, Mode: "pause-fail", Sys: ev.name, At: ev.ord, Seq: i, Sys2: evs[j].name, At2: evs[j].ord})
+				}
+				for j := len(evs) - 3; j < len(evs); j++ {
+					if j < 0 {
+						continue
+					}
+					items = append(items, fsItem{Size: sz, Mode: "pause-bkill", Sys: ev.name, At: ev.ord, Seq: i, Sys2: evs[j].name, At2: evs[j].ord})
+				}
+			}
 		}
 	}
 	return items, writeOrd, recs, nil
@@ -536,7 +576,7 @@ func bareWorld(sc *Scenario) *World {
 
 func itemToScenario(prop string, seed uint64, it fsItem, writeOrd int) *Scenario {
 	return &Scenario{Property: prop, Engine: "filestore", Seed: seed,
-		Ops:   []Op{{K: "fileinject", F: it.Mode + ":" + it.Sys, N: it.At, Key: it.Size, Val: writeOrd, A: it.Seq}},
+		Ops:   []Op{{K: "fileinject", F: it.Mode + ":" + it.Sys + ":" + it.Sys2, N: it.At, Key: it.Size, Val: writeOrd, A: it.Seq, B: it.At2}},
 	}
 }
 
@@ -553,10 +593,13 @@ func RunFileScenario(t *testing.T, sc *Scenario) *World {
 		return w
 	}
 	op := sc.Ops[0]
-	parts := strings.SplitN(op.F, ":", 2)
-	it := fsItem{Size: op.Key, Mode: parts[0], At: op.N, Seq: op.A}
+	parts := strings.SplitN(op.F, ":", 3)
+	it := fsItem{Size: op.Key, Mode: parts[0], At: op.N, Seq: op.A, At2: op.B}
 	if len(parts) > 1 {
 		it.Sys = parts[1]
+	}
+	if len(parts) > 2 {
+		it.Sys2 = parts[2]
 	}
 	o, err := e.runItem(it, op.Val)
 	if err != nil {
@@ -677,7 +720,7 @@ func RunFileStoreShard(t *testing.T, env *ShardEnv) *ShardReport {
 		}
 		// every injected run is executed twice and must be judged identically
 		o2 := o1
-		if (it.Mode != "pause-sys" && it.Mode != "two-writers-one-process") || o1.sig != "" {
+		if (!strings.HasPrefix(it.Mode, "pause-") && it.Mode != "two-writers-one-process") || o1.sig != "" {
 			o2, err = e.runItem(it, writeOrd[it.Size])
 		}
 		rep.Evaluations++
